@@ -208,9 +208,20 @@ func (w *c32World) connect(dir string, p int) string {
 	w.conns = append(w.conns, c)
 	go c.remoteLoop()
 	if c.registered {
+		c.settle()
 		return fmt.Sprintf("registered c%d", c.idx)
 	}
 	return fmt.Sprintf("rejected c%d", c.idx)
+}
+
+// settle waits until the manager's read loop (and the scripted remote reader) are blocked in Read.
+// A read loop that has not reached Read yet (just started, or between two frames) when its
+// connection is closed exits WITHOUT calling handleDisconnect; the scripts keep that race out.
+func (c *c32Conn) settle() {
+	deadline := time.Now().Add(time.Second)
+	for c.end.blockedReaders() < 2 && time.Now().Before(deadline) {
+		time.Sleep(100 * time.Microsecond)
+	}
 }
 
 func (w *c32World) conn(tok string) *c32Conn {
@@ -264,6 +275,7 @@ func c32Run(line string) string {
 				select {
 				case got := <-w.frames:
 					if got == sid {
+						c.settle()
 						return "delivered"
 					}
 					continue
@@ -364,7 +376,7 @@ func init() {
 		Run: c32Run,
 		Gen: func(w *bufio.Writer, seed int64, tier string) {
 			r := newRng(seed)
-			cases := 12
+			cases := 40
 			if tier == "thorough" {
 				cases = 90
 			}
